@@ -216,7 +216,16 @@ func (ns *namesys) resolveOnceAsync(ctx context.Context, p path.Path, options Re
 		return out
 	}
 
-	if resolvedBase, ttl, lastMod, ok := ns.cacheGet(resolvablePath.String()); ok {
+	// IPNS names are cached under the canonical name string, the key Publish
+	// writes, whatever textual form was asked for; other names by path.
+	cacheKey := resolvablePath.String()
+	if _, static := ns.staticMap[cacheKey]; !static {
+		if name, err := ipns.NameFromString(segments[1]); err == nil {
+			cacheKey = name.String()
+		}
+	}
+
+	if resolvedBase, ttl, lastMod, ok := ns.cacheGet(cacheKey); ok {
 		p, err = joinPaths(resolvedBase, p)
 		span.SetAttributes(attribute.Bool("CacheHit", true))
 		span.RecordError(err)
@@ -262,7 +271,7 @@ func (ns *namesys) resolveOnceAsync(ctx context.Context, p path.Path, options Re
 			case res, ok := <-resCh:
 				if !ok {
 					if best != (AsyncResult{}) {
-						ns.cacheSet(resolvablePath.String(), best.Path, best.TTL, best.LastMod)
+						ns.cacheSet(cacheKey, best.Path, best.TTL, best.LastMod)
 					}
 					return
 				}
